@@ -182,6 +182,40 @@ func reasmSpec(id string, which reasm.Which, snapshot bool, rule string, assumpt
 			}
 			c.Add("jump_histories", jumps)
 		}
+		// big histories (enumerated): one event with hundreds of records, and an unfinished head with 15-60
+		// complete events queued behind it that all become deliverable by one push (the head's EOE / last record)
+		{
+			var big int64
+			for _, base := range []uint32{500, 0xFFFFFFE0} {
+				for _, n := range []int{200, 256, 257, 300, 700} {
+					for _, max := range []int{1, 5, 64} {
+						h := &reasm.History{MaxInFlight: max, TimeoutNs: 3600e9, Base: base}
+						h.Ops = append(h.Ops, reasm.Op{Kind: reasm.OpPushMsg, Seq: base, Type: 1300})
+						for i := 0; i < n; i++ {
+							h.Ops = append(h.Ops, reasm.Op{Kind: reasm.OpPushMsg, Seq: base + 1, Type: []uint16{1309, 1302, 1307}[i%3]})
+						}
+						h.Ops = append(h.Ops, reasm.Op{Kind: reasm.OpPushMsg, Seq: base + 1, Type: reasm.TypeEOE}, reasm.Op{Kind: reasm.OpPushMsg, Seq: base, Type: 1327}, reasm.Op{Kind: reasm.OpClose})
+						one(h)
+						big++
+					}
+				}
+				for _, n := range []int{15, 16, 17, 18, 31, 32, 33, 40, 60} {
+					for _, max := range []int{64, 100} {
+						for _, by := range []uint16{reasm.TypeEOE, 1327} {
+							h := &reasm.History{MaxInFlight: max, TimeoutNs: 3600e9, Base: base}
+							h.Ops = append(h.Ops, reasm.Op{Kind: reasm.OpPushMsg, Seq: base, Type: 1300})
+							for i := 1; i <= n; i++ {
+								h.Ops = append(h.Ops, reasm.Op{Kind: reasm.OpPushMsg, Seq: base + uint32(i), Type: 1327})
+							}
+							h.Ops = append(h.Ops, reasm.Op{Kind: reasm.OpPushMsg, Seq: base, Type: by}, reasm.Op{Kind: reasm.OpMaintain}, reasm.Op{Kind: reasm.OpPushMsg, Seq: base + uint32(n) + 1, Type: 1300}, reasm.Op{Kind: reasm.OpClose})
+							one(h)
+							big++
+						}
+					}
+				}
+			}
+			c.Add("big_histories", big)
+		}
 		if id == "C02" {
 			c02PanicHistories(c)
 		}
@@ -227,7 +261,7 @@ func reasmSpec(id string, which reasm.Which, snapshot bool, rule string, assumpt
 	}
 }
 
-const reasmRule = "cases = seeded random single-goroutine call histories (1-60 ops of PushMessage/Push(raw)/Push(bad)/PushMessage(nil)/Maintain over 2-8 live sequence numbers in one 2^24 window anchored at 1, 0, 2^32-6 (straddling the roll-over) or random; completing, non-completing and EOE record types; duplicates; maxInFlight in {0,1,2,3,5,8,64}; timeout 1h) each ending in Close (a fifth continue with pushes / Maintain / Close after it), plus EVERY history of length <= L over 3 sequences x {non-completing, completing, EOE} + Maintain for maxInFlight in {0,1,2} and two anchors (L=4 quick, 7 thorough). distinct_nontrivial = distinct histories (by full text) in which at least one of {overflow eviction, duplicate sequence, late arrival, roll-over straddle, orphan EOE, loss gap, head-of-line blocking} occurred."
+const reasmRule = "cases = seeded random single-goroutine call histories (1-60 ops of PushMessage/Push(raw)/Push(bad)/PushMessage(nil)/Maintain over 2-8 live sequence numbers in one 2^24 window anchored at 1, 0, 2^32-6 (straddling the roll-over) or random; completing, non-completing and EOE record types; duplicates; maxInFlight in {0,1,2,3,5,8,64}; timeout 1h) each ending in Close (a fifth continue with pushes / Maintain / Close after it), plus EVERY history of length <= L over 3 sequences x {non-completing, completing, EOE} + Maintain for maxInFlight in {0,1,2} and two anchors (L=4 quick, 7 thorough), plus 66 enumerated big histories (one event of 200-700 records; an unfinished head with 15-60 complete events behind it released by one push, maxInFlight 64/100). distinct_nontrivial = distinct histories (by full text) in which at least one of {overflow eviction, duplicate sequence, late arrival, roll-over straddle, orphan EOE, loss gap, head-of-line blocking} occurred."
 
 var reasmAssumptions = []string{
 	"histories are executed by the real Reassembler from /repo's working tree (-tags verif); callbacks are recorded at the Stream boundary and tagged with the call that made them",
